@@ -1,6 +1,8 @@
-\* JsonWriter, thorough tier: every unit sequence of length <= 4 over the 35 units
-\* (23 byte classes + 7 valid and 5 invalid multi-byte sequences) and every
-\* scalar case.  Repaired behaviour (no deviation).
+\* JsonWriter, thorough tier.  MaxLen = 4: 1,544,761 string inputs (byte length up
+\* to 16) + 1,440 scalar cases.  Measured: 3,092,402 states, 8 min with 4 workers.
+\* The driver (harness/cmd/c08) does not use this file directly: it runs the same
+\* model as four shards on the first unit (MC_JsonWriterShard generated at run
+\* time, 1 worker each, in parallel, about 6 min); this cfg is the unsharded equivalent.
 SPECIFICATION Spec
 CONSTANTS
   MaxLen = 4
@@ -8,6 +10,6 @@ CONSTANTS
   CopyInvalidVerbatim = FALSE
   UintIDWraps = FALSE
   EmitLines = TRUE
-INVARIANTS TypeOK ThmAccepted ThmValidUtf8 ThmDecodes ThmRuneAtIsRef ThmNoSilentWrap ThmRoundTripCloses ThmNonFinite ThmRanges
+INVARIANTS TypeOK ThmAccepted ThmValidUtf8 ThmDecodes ThmRuneAtIsRef ThmNoSilentWrap ThmRoundTripCloses ThmNonFinite
 ACTION_CONSTRAINT Emit
 CHECK_DEADLOCK FALSE
